@@ -2,7 +2,49 @@
 // Input: one request per line.  Output: one line per (sub)request:
 //   <request>\t<response>[\t<reference>]
 use sdharness::sx::*;
+use std::alloc::{GlobalAlloc, Layout, System};
 use std::io::{BufRead, Write};
+use std::sync::atomic::{AtomicUsize, Ordering};
+
+// counting allocator: current and peak live heap bytes (used by the C18 measurements)
+struct Counting;
+static CUR: AtomicUsize = AtomicUsize::new(0);
+static PEAK: AtomicUsize = AtomicUsize::new(0);
+unsafe impl GlobalAlloc for Counting {
+    unsafe fn alloc(&self, l: Layout) -> *mut u8 {
+        let p = System.alloc(l);
+        if !p.is_null() {
+            let c = CUR.fetch_add(l.size(), Ordering::Relaxed) + l.size();
+            PEAK.fetch_max(c, Ordering::Relaxed);
+        }
+        p
+    }
+    unsafe fn dealloc(&self, p: *mut u8, l: Layout) {
+        CUR.fetch_sub(l.size(), Ordering::Relaxed);
+        System.dealloc(p, l)
+    }
+    unsafe fn realloc(&self, p: *mut u8, l: Layout, new: usize) -> *mut u8 {
+        let q = System.realloc(p, l, new);
+        if !q.is_null() {
+            if new >= l.size() {
+                let c = CUR.fetch_add(new - l.size(), Ordering::Relaxed) + (new - l.size());
+                PEAK.fetch_max(c, Ordering::Relaxed);
+            } else {
+                CUR.fetch_sub(l.size() - new, Ordering::Relaxed);
+            }
+        }
+        q
+    }
+}
+#[global_allocator]
+static GLOBAL: Counting = Counting;
+
+fn measure(f: &mut dyn FnMut()) -> usize {
+    let base = CUR.load(Ordering::Relaxed);
+    PEAK.store(base, Ordering::Relaxed);
+    f();
+    PEAK.load(Ordering::Relaxed).saturating_sub(base)
+}
 
 fn main() {
     std::panic::set_hook(Box::new(|_| {}));
@@ -61,6 +103,18 @@ fn main() {
             Some("derive") => {
                 let resp = sdharness::h_derive::handle(&items[1..]);
                 writeln!(out, "{}\t{}", req, resp).unwrap();
+            }
+            Some("mem") => {
+                // (mem hirsch|lev|derive (t...) (s...)) : peak heap growth while computing the diff
+                let which = items[1].atom().unwrap_or("").to_string();
+                let t = items[2].nats().unwrap();
+                let s = items[3].nats().unwrap();
+                let resp = sdharness::guarded(|| {
+                    let (peak, len) = sdharness::h_ordered::diff_measured(&which, &t, &s, &measure);
+                    tag("ok", vec![tag("peak", vec![n(peak)]), tag("script", vec![n(len)])])
+                })
+                .unwrap_or_else(|| tag("panic", vec![]));
+                writeln!(out, "(mem {} {} {})\t{}", which, t.len(), s.len(), resp).unwrap();
             }
             Some("apply-bytes") => {
                 let resp = sdharness::h_ordered::apply_bytes(&items[1..]);
